@@ -144,3 +144,22 @@ MUTANTS += [
          old="            'timeNs': stats.st_mtime_ns,",
          new="            'timeNs': stats.st_mtime_ns // 10**9,"),
 ]
+
+MUTANTS += [
+    # ---- C07
+    dict(name='c07_is_equal_bool_clause_removed', props=['C07', 'C18'], file=JU,
+         old="        elif (class1 == bool) != (class2 == bool):\n            # Booleans are special, because True == 1 and False == 0\n            return False\n",
+         new=""),
+    dict(name='c07_list_hashable_no_tag', props=['C07', 'C18'], file=JU,
+         old="            return (0,) + tuple(\n                [JsonUtil.to_hashable(element) for element in value])",
+         new="            return tuple(\n                [JsonUtil.to_hashable(element) for element in value])"),
+    dict(name='c07_abspath_without_fsdecode', props=['C07'], file=FB,
+         old="        return str(os.path.abspath(os.fsdecode(filename)))",
+         new="        return str(os.path.abspath(filename if isinstance(filename, (str, bytes)) else os.fspath(filename)))"),
+    dict(name='c07_kwargs_not_in_subbuild_key', props=['C07'], file=CACHE,
+         old="        return JsonUtil.to_hashable([\n            operation.func_name, operation.args, operation.kwargs])",
+         new="        return JsonUtil.to_hashable([\n            operation.func_name, operation.args, sorted(operation.kwargs)])"),
+    dict(name='c07_build_file_lookup_ignores_kwargs', props=['C07'], file=FB,
+         old="                JsonUtil.is_equal(cached_operation.args, operation.args) and\n                JsonUtil.is_equal(\n                    cached_operation.kwargs, operation.kwargs) and\n",
+         new="                JsonUtil.is_equal(cached_operation.args, operation.args) and\n"),
+]
